@@ -35,6 +35,7 @@ def gen_actions(rng, kind, n, LEVELS=LEVELS):
     if kind == "nested": return [((i, i + 1), i + 2) for i in rng.sample(range(1, 9), n)]
     if kind == "nestcat": return [[[Categorical(l, LEVELS), i], i + 1] for i, l in enumerate(rng.sample(LEVELS, n))]      # a categorical inside a nested list of a dense action
     if kind == "sparsecat": return [{"f": [Categorical(l, LEVELS), 1], "g": i + 1} for i, l in enumerate(rng.sample(LEVELS, n))]
+    if rng.random() < 0.4: return [{"f%d" % i: 1} for i in rng.sample(range(1, 30), n)]      # actions that differ in the NAME of their one feature only
     return [{"k%d" % i: 1, "z": i + 1} for i in rng.sample(range(1, 9), n)]
 
 def _with_levels(x, lv):
@@ -117,7 +118,7 @@ def gen_chain(rng, kind):
         elif k == "flatten": chain.append(F.Flatten()); desc.append("Flatten()"); cur = "dense" if cur != "densecat" else "densecat"
         elif k == "sparsify": c = rng.random() < 0.5; chain.append(F.Sparsify(context=c, action=True)); desc.append("Sparsify(%s,True)" % c); cur = "sparse"
         elif k == "densify":
-            m = rng.choice(["lookup", "lookup", "hashing"]); nf = rng.choice([16, 400]); chain.append(F.Densify(nf, m, rng.random() < 0.5, True)); desc.append("Densify(%d,%r,.,True)" % (nf, m)); cur = "densified"
+            m = rng.choice(["lookup", "lookup", "hashing"]); nf = rng.choice([16, 100, 400]); chain.append(F.Densify(nf, m, rng.random() < 0.5, True)); desc.append("Densify(%d,%r,.,True)" % (nf, m)); cur = "densified"
         elif k == "noise": chain.append(F.Noise(action=("i", 1, 3), seed=rng.randrange(1, 50))); desc.append("Noise(action=('i',1,3))"); cur = "other"
         elif k == "finalize": chain.append(F.Finalize()); desc.append("Finalize()")
         if cur in ("other", "densified"): break
